@@ -349,6 +349,15 @@ func Packet(t *rapid.T, typ uint8, o Opts) model.Packet {
 			m.Password = Bytes(t, "password", o)
 		}
 		m.HasPassword = len(m.Password) > 0
+		if o.SpecValid && o.AllowEmptyUserKey {
+			// wire-level only: the flags may be set with zero-length values
+			if !m.HasUsername && rapid.IntRange(0, 3).Draw(t, "emptyuserflag") == 0 {
+				m.HasUsername = true
+			}
+			if !m.HasPassword && rapid.IntRange(0, 3).Draw(t, "emptypassflag") == 0 {
+				m.HasPassword = true
+			}
+		}
 		if rapid.IntRange(0, 1).Draw(t, "haswill") == 0 {
 			m.Will = Will(t, o)
 			if present(t, "willdelay") {
@@ -572,6 +581,7 @@ func Packet(t *rapid.T, typ uint8, o Opts) model.Packet {
 		}
 		m.UserProps = UserProps(t, "up", o)
 	}
+	m.XEmptyNonNil = rapid.Bool().Draw(t, "emptynonnil")
 	m.Normalize()
 	return m
 }
